@@ -1,33 +1,22 @@
 (* C01 — compiled programs compute what the language reference says.
 
-   FULL STATEMENT (DESIGN §5; stage (e), NOT closed):
-
-     C01_compile_correct : forall E p file, wt p -> scoped_otherwise p = true ->
-       forall lines,
-         let (ocs, vs) := run_lines E (codegen p) (map (mklogline file) lines) (init_vm (codegen p)) in
-         let (st, ros) := ref_lines E p file lines (init_rstore p) in
-         obs_vm (vs_store vs) = obs_ref st /\ map class_vm ocs = map class_ref ros.
-
-   What IS proved here, each stage under its own name:
-     C01_expr_pure              stage (a), straight-line pure fragment (Proofs/C01Expr.v)
-     C01_expr_all               stages (b)+(c) for EVERY well-typed expression ([etype]): comparisons
-                                (typed and generic cmp), && || (forward jumps), =~ !~ / pattern match
-                                (capture state), metric reads (store relation [srel] with the VM's heap
-                                store), strtol, subst, and all of (a); step bound n <= |code|
-     C01_expr_logic             stage (b) by name;  C01_expr_effect  the expression part of stage (c)
-     C01_flags_coincide         source-level core of stage (d): single flag = block-local flag under ok_block
-     C01_stmt_skeleton          stage (d) at bytecode level for else-free blocks: conditionals, otherwise,
-                                sequencing, errors/stop — GIVEN the simulation of the block-free statements
-     C01_error_keeps_effects    the state returned with Err is the state reached by the executed prefix
-     C01_otherwise_else_refuted the full statement is FALSE without the guard (witness of §6)
-     C01_compile_correct_partial  the conjunction of the closed general stages
-   NOT proved (see notes/C01.md): the block-free statements against the heap store (++ -- = += settime
-   strptime del del-after stop: the store lemmas for heap update / delete / expiry are missing, only
-   get_datum is done), conditionals WITH else at bytecode level, the initial-store relation and the
-   composition over lines (e); hence no in_fragment-guarded C01_compile_correct yet. *)
+   MAIN THEOREM (DESIGN §5, stage (e)) — PROVED for the fragment:
+     C01_compile_correct : wt p -> in_fragment p -> scoped_otherwise p -> forall E file lines,
+        observable store and per-line outcome classes of  run_lines E (codegen p) lines  (Vm.v)
+        =  those of  ref_lines E p lines  (RefSem.v).
+   Stages, each under its own name:
+     C01_expr_pure (a, round 1)  C01_expr_all / C01_expr_logic / C01_expr_effect (b, c: every well-typed
+     expression)  C01_stmt (c+d: every statement and block of the fragment at bytecode level:
+     ++ -- = += settime strptime del del-after stop, conditionals with and without else, otherwise)
+     C01_flags_coincide (single flag = block-local flag under the guard)  C01_stmt_skeleton (round 2)
+     C01_error_keeps_effects  C01_otherwise_else_refuted (the guard is needed)
+     C01_compile_correct_partial (conjunction of the general stage lemmas, kept).
+   Outside the proved fragment (in_fragment / the AST): `+=` on a Float or text metric (target emitted
+   twice), decorators (inlined by the harness before this AST), x++ used as a value (no AST node),
+   constant folding and the checker itself (acceptance is tie (4) only). *)
 From V Require Import Lang.RefSem Lang.Codegen Lang.Vm Lang.Observe Lang.Wt
   Proofs.C01Sim Proofs.C01Expr Proofs.C01Flags Proofs.C01Witness
-  Proofs.C01Store Proofs.C01Gen Proofs.C01Cases Proofs.C01Stmt.
+  Proofs.C01Store Proofs.C01Gen Proofs.C01Cases Proofs.C01Stmt Proofs.C01Simple Proofs.C01Line.
 Local Open Scope Z_scope.
 
 (* ---- stage (a) ---- *)
@@ -140,6 +129,38 @@ Proof.
   exact (proj2 (skeleton E decls file line o Hm Hs) b Hw Hn).
 Qed.
 
+(* ---- stage (e): THE MAIN THEOREM for the proved fragment ---- *)
+(* wt p          : the checker's output contract (Lang/Wt.v), evaluated on every generated program;
+   in_fragment p : no `+=` on a Float or text metric (codegen emits the target twice);
+   scoped_otherwise p : no `otherwise` at the top level of an else block, none after a
+                        conditional with else (without it the statement is false:
+                        C01_otherwise_else_refuted).
+   Then compiling p and running the VM model on any lines, from the freshly loaded store,
+   gives the same observable store (per metric: label tuples in order, values, time
+   classes, expiry) and the same per-line outcome classes (next / stop / error) as the
+   reference semantics — for every oracle environment. *)
+Theorem C01_compile_correct :
+  forall (E : env) (p : prog) (file : bytes),
+    wt p = true -> in_fragment p = true -> scoped_otherwise p = true ->
+    forall lines : list bytes,
+      obs_vm (vs_store (snd (run_lines E (codegen p) (map (mklogline file) lines) (init_vm (codegen p))))) =
+        obs_ref (fst (ref_lines E p file lines (init_rstore p))) /\
+      map class_vm (fst (run_lines E (codegen p) (map (mklogline file) lines) (init_vm (codegen p)))) =
+        map class_ref (snd (ref_lines E p file lines (init_rstore p))).
+Proof. exact compile_correct. Qed.
+
+(* stage (c)+(d) at bytecode level: every statement and block of the fragment *)
+Theorem C01_stmt :
+  forall (E : env) (decls : list mdecl) (file line : bytes) (o : object),
+    o_metrics o = map mdesc_of decls ->
+    (forall s, wt_stmt decls (o_strs o) (o_nre o) s = true -> frag_stmt s = true -> ssim E decls file line o s) /\
+    (forall b, wt_block decls (o_strs o) (o_nre o) b = true -> frag_block b = true -> bsim E decls file line o b).
+Proof. exact stmt_block_sim. Qed.
+
+Example C01_compile_correct_nonvacuous :
+  wt wit_ok_prog = true /\ in_fragment wit_ok_prog = true /\ scoped_otherwise wit_ok_prog = true.
+Proof. repeat split; reflexivity. Qed.
+
 (* ---- errors keep the effects already made ---- *)
 Theorem C01_error_keeps_effects :
   (* VM: the state returned with Err is the one reached by the instructions executed before *)
@@ -199,6 +220,9 @@ Print Assumptions C01_expr_logic.
 Print Assumptions C01_expr_effect.
 Print Assumptions C01_flags_coincide.
 Print Assumptions C01_stmt_skeleton.
+Print Assumptions C01_stmt.
+Print Assumptions C01_compile_correct.
+Print Assumptions C01_compile_correct_nonvacuous.
 Print Assumptions C01_error_keeps_effects.
 Print Assumptions C01_otherwise_else_refuted.
 Print Assumptions C01_compile_correct_partial.
